@@ -687,7 +687,7 @@ pub fn array_slice(
         .ok_or_else(|| JsError::type_error("Not an array"))? as i64;
 
     let start_arg = args.first().map(|v| v.to_number() as i64).unwrap_or(0);
-    let end_arg = args.get(1).map(|v| v.to_number() as i64).unwrap_or(length);
+    let end_arg = args.get(1).filter(|v| !v.is_undefined()).map(|v| v.to_number() as i64).unwrap_or(length);
 
     let start = if start_arg < 0 {
         (length + start_arg).max(0)
@@ -1137,6 +1137,7 @@ pub fn array_fill(
 
     let end = args
         .get(2)
+        .filter(|v| !v.is_undefined())
         .map(|v| {
             let n = v.to_number() as i64;
             if n < 0 {
@@ -1201,6 +1202,7 @@ pub fn array_copy_within(
 
     let end = args
         .get(2)
+        .filter(|v| !v.is_undefined())
         .map(|v| {
             let n = v.to_number() as i64;
             if n < 0 {
